@@ -330,6 +330,16 @@ pub fn c05(ctx: &mut Ctx) {
             ctx.evaluations += 1;
             for f in xp::feature_set(&e) { ctx.count(&format!("f/{}", f)); }
             if d % 97 == 0 && k == 0 { ctx.sample(&format!("{}  ON  {}", estr, case.text)); }
+            if k % 8 == 7 {
+                // the caller binds a default namespace as well (one of the document's URIs, or one nothing is in)
+                let dflt = match case.ns.first() { Some(x) if r.chance(2, 3) => x.1.clone(), _ => "urn:none".to_string() };
+                match judge_default_ns(&case, &e, &estr, &case.subj, &case.ns, &dflt) {
+                    Judgement::Agree => ctx.count("agree/default-namespace"),
+                    Judgement::Deviation { mask, excluded } => { let sig = format!("C05/deviation/{}{}", xp::Dev::names(mask), if excluded { "/excluded" } else { "" }); ctx.violation(d, &sig, &format!("expr {} :: default namespace {} :: doc {}", estr, dflt, case.text), &[("doc", &case.text), ("expr", &estr), ("default", &dflt)]); }
+                    Judgement::Violation { kind, detail } => { if kind == "panic" || kind == "steps" { ctx.count("totality-failure(see C06)"); } ctx.violation(d, &format!("C05/default-namespace/{}", kind), &format!("{} :: expr {} :: default namespace {} :: doc {}", detail, estr, dflt, case.text), &[("doc", &case.text), ("expr", &estr), ("default", &dflt)]); }
+                    Judgement::Inconclusive(why) => { ctx.inconclusive("oracle_disagreement"); let _ = why; }
+                }
+            }
             for (view, subj) in [("merged", Some(&case.subj)), ("raw", raw.as_ref())] {
                 let subj = match subj { Some(s) => s, None => continue };
                 match judge(&case, &e, &estr, subj) {
@@ -937,6 +947,32 @@ fn rename_expr(e: &Expr, map: &dyn Fn(&str) -> String) -> Expr {
     }
 }
 
+/// the same expression for an engine without a caller default namespace: unprefixed name tests on axes whose principal
+/// node type is element get the given prefix (to be bound to the default namespace's URI)
+pub fn with_default_prefix(e: &Expr, prefix: &str) -> Expr {
+    match e {
+        Expr::Bin(op, a, b) => Expr::Bin(*op, Box::new(with_default_prefix(a, prefix)), Box::new(with_default_prefix(b, prefix))),
+        Expr::Neg(a) => Expr::Neg(Box::new(with_default_prefix(a, prefix))),
+        Expr::Func(n, args) => Expr::Func(n.clone(), args.iter().map(|a| with_default_prefix(a, prefix)).collect()),
+        Expr::Path(start, steps) => {
+            let start = match start { Start::Filter(fe, preds) => Start::Filter(Box::new(with_default_prefix(fe, prefix)), preds.iter().map(|p| with_default_prefix(p, prefix)).collect()), o => o.clone() };
+            Expr::Path(start, steps.iter().map(|s| Step { axis: s.axis, test: match (&s.test, s.axis) { (Test::Name(None, l), a) if a != Axis::Attribute && a != Axis::Namespace => Test::Name(Some(prefix.to_string()), l.clone()), (t, _) => t.clone() }, preds: s.preds.iter().map(|p| with_default_prefix(p, prefix)).collect(), dslash: s.dslash }).collect())
+        }
+        o => o.clone(),
+    }
+}
+
+/// verdict on an evaluation under a caller default namespace (xml-rs: Context::add_ns(None, uri); xq/xe: --setns xmlns=uri).
+/// It applies to element name tests only, so the expected value is that of the expression with those tests prefixed.
+pub fn judge_default_ns(case: &XCase, e: &Expr, estr: &str, subj: &Subject, ns: &[(String, String)], dflt: &str) -> Judgement {
+    let e2 = with_default_prefix(e, "dfl0");
+    let mut ns2 = ns.to_vec(); ns2.retain(|x| x.0 != "dfl0"); ns2.push(("dfl0".to_string(), dflt.to_string()));
+    let s2 = xp::render(&e2, Spelling::abbreviated(), None);
+    let exp = ref_eval(&case.tree, &e2, &ns2, None);
+    let (got, _) = xmlrs_eval(subj, estr, ns, Some(dflt), STEP_BUDGET);
+    judge_outcomes(case, &e2, &s2, &ns2, &exp, &got)
+}
+
 /// do the results of an expression depend on prefix *strings* (name() of prefixed nodes, namespace axis names)?
 fn mentions_prefix_strings(e: &Expr) -> bool { let f = xp::feature_set(e); f.iter().any(|x| x == "fn:name" || x == "axis:namespace") }
 
@@ -1105,6 +1141,15 @@ pub fn c10(ctx: &mut Ctx) {
                 let (g2, _) = xmlrs_eval(&case.subj, &s2, &caller2, Some(&dflt), STEP_BUDGET);
                 ctx.count("rename/caller-with-default-binding");
                 if let Some(kind) = diff(&g1, &g2) { ctx.violation(d, &format!("C10/rename/caller-default/{}", kind), &format!("{} gives {}; {} gives {} (default {}) :: doc {}", estr, g1.brief(), s2, g2.brief(), dflt, case.text), &[("doc", &case.text), ("expr", &estr)]); }
+                // ... and it stands for a prefix on element name tests, nothing else
+                if !matches!(g1, Outcome::Panic(_) | Outcome::Steps) {
+                    match judge_default_ns(&case, &e, &estr, &case.subj, &caller, &dflt) {
+                        Judgement::Agree => ctx.count("default-namespace-agree"),
+                        Judgement::Deviation { mask, .. } => ctx.count(&format!("explained-by-recorded-C05-finding/{}", xp::Dev::names(mask))),
+                        Judgement::Violation { kind, detail } => ctx.violation(d, &format!("C10/default-namespace/{}", kind), &format!("{} :: expr {} :: default namespace {} bindings {:?} :: doc {}", detail, estr, dflt, caller, case.text), &[("doc", &case.text), ("expr", &estr), ("default", &dflt)]),
+                        Judgement::Inconclusive(_) => ctx.inconclusive("oracle_disagreement"),
+                    }
+                }
             }
         }
         // (d) the same holds for a document that has been edited through the DOM: names are resolved in the tree as it is now
